@@ -171,7 +171,7 @@ def _exhaustive(ctx, maxlen):
 
 
 def run_shard(ctx):
-    n = 250 if ctx.tier == "quick" else 3000
+    n = 250 if ctx.tier == "quick" else 12000
 
     def body(case):
         cl = run_calls(case["calls"], set())
